@@ -92,11 +92,33 @@ class Executor:
         self._err_off = 0
         self.p = subprocess.Popen([self.binary, "--root", self.root] + self.extra_args, stdin=subprocess.PIPE,
                                   stdout=subprocess.PIPE, stderr=self.errf, env=self.env, bufsize=0)
-        self.rd = os.fdopen(self.p.stdout.fileno(), "rb", buffering=1 << 16, closefd=False)
+        self._buf = b""
+
+    # A plan takes milliseconds to a few seconds and the step budget ends every loop in instrumented code.  What is
+    # left are hangs OUTSIDE it (a sanitizer runtime that dead-locks while reporting, a libc call that never returns):
+    # after this many wall-clock seconds without a line the executor is killed and the plan counts as crashed.  The
+    # limit is two orders of magnitude above anything a healthy plan needs, so it does not decide ordinary runs.
+    WATCHDOG_S = float(os.environ.get("LESIM_WATCHDOG", "240"))
 
     def _readline(self):
-        line = self.rd.readline()
-        return line
+        import select
+        fd = self.p.stdout.fileno()
+        while b"\n" not in self._buf:
+            ready, _, _ = select.select([fd], [], [], self.WATCHDOG_S)
+            if not ready:
+                self.hung = True
+                try:
+                    self.p.kill()
+                except Exception:
+                    pass
+                return b""
+            chunk = os.read(fd, 1 << 16)
+            if not chunk:
+                line, self._buf = self._buf, b""       # end of file: whatever is left (normally nothing)
+                return line
+            self._buf += chunk
+        line, _, self._buf = self._buf.partition(b"\n")
+        return line + b"\n"
 
     def run(self, plan):
         """Execute one plan; returns the result dict.  A crash is returned as
@@ -152,6 +174,9 @@ class Executor:
         self.p = None
         self.restarts += 1
         out = {"id": plan.get("id"), "fatal": "crash", "exit": code, "stderr": err[-12000:]}
+        if getattr(self, "hung", False):
+            out["exit"] = "watchdog"
+            self.hung = False
         if fatal:
             out["fatal"] = "step_budget"
             out["steps"] = fatal.get("steps")
@@ -200,6 +225,8 @@ def classify_crash(res):
         return "hang:step_budget"
     err = res.get("stderr", "")
     kind = "exit%s" % res.get("exit")
+    if res.get("exit") == "watchdog":
+        kind = "hang:watchdog"
     import re
     m = re.search(r"ERROR: AddressSanitizer: ([a-zA-Z0-9_-]+)", err)
     if m:
